@@ -62,6 +62,13 @@ def sweep_serial(sw, r, tier):
             ra, rc = outcome(lambda: a.format(d)), outcome(lambda: c.format(d))
             sw.check(ra == rc, "the renderings differ", {**case, "clause": "serial-render", "fmt": d}, rc, ra)
         sw.check(a.value == c.value == n, "from_value does not keep the value", {**case, "clause": "serial-from-value"}, n, [a.value, c.value])
+        # percent signs: '%%' is a literal percent wherever it stands, also directly in front of a directive letter
+        for fmt in ("%%n", "%%%n", "%n%%", "100%% of %n", "%%%%%n", "%n%%n", "%%c-%c"):
+            sw.note(["serial", n, fmt], "serial-percent")
+            ra, rc = outcome(lambda: a.format(fmt)), outcome(lambda: c.format(fmt))
+            sw.check(ra == rc, "the renderings differ", {**case, "clause": "serial-render", "fmt": fmt}, rc, ra)
+            if rc[0] == "ok":
+                compare_parse(sw, "serial", ASerial, Serial, rc[1], fmt, case)
         for _ in range(3 if tier == "quick" else 8):
             toks = [r.choice(dirs) for _ in range(r.randint(1, 4))]
             fmt = r.choice(SEPS).join(toks)
@@ -114,6 +121,12 @@ def sweep_datetime(sw, r, tier):
         a, c = ADatetime.from_value(t), Datetime.from_value(t)
         case = {"cls": "datetime", "value": str(t)}
         sw.check(a.value == c.value == t, "from_value does not keep the value", {**case, "clause": "datetime-from-value"}, str(t), [str(a.value), str(c.value)])
+        for fmt in ("%%H:%M", "%%%Y", "%Y%%", "%%Y-%m", "%d%%%m"):
+            sw.note(["datetime", str(t), fmt], "datetime-percent")
+            ra, rc = outcome(lambda: a.format(fmt)), outcome(lambda: c.format(fmt))
+            sw.check(ra == rc, "the renderings differ", {**case, "clause": "datetime-render", "fmt": fmt}, rc, ra)
+            if rc[0] == "ok":
+                compare_parse(sw, "datetime", ADatetime, Datetime, rc[1], fmt, case)
         for d in D_DIRS:
             sw.note(["datetime", str(t), d], "datetime-render")
             ra, rc = outcome(lambda: a.format(d)), outcome(lambda: c.format(d))
